@@ -416,6 +416,213 @@ func f(a uint) uint { x, y := g(a); return x ^ y }`, "g,f", true, "let st_1 : Bi
 	{"copy into a parameter that may overlap", `func f(dst, src []byte) { copy(dst, src) }`, "f", false, "may overlap"},
 	{"local array", `func f(i int) byte { var a [4]byte; a[i] = 7; return a[0] }`, "f", true, "let a : List (BitVec 8) := (List.replicate 4 0#8)"},
 	{"array parameter", `func f(l [4]uint) uint { return l[0] }`, "f", false, "outside the translated subset"},
+	// stage 7.1: bits.Len, bits.UintSize, uint(x-1), panic in a uint function, constant shifted by a variable
+	{"bits.Len", `import "math/bits"
+func f(a uint) int { return bits.Len(a) }`, "f", true, "(Go.bitsLen64 a)"},
+	{"bits.Len8", `import "math/bits"
+func f(a byte) int { return bits.Len8(a) }`, "f", false, "unsupported call"},
+	{"bits.UintSize", `import "math/bits"
+func f(a int) int { return a & (bits.UintSize - 1) }`, "f", true, "(a &&& 63#64)"},
+	{"uint of an int difference", `func f(x int) uint { return uint(x-1) }`, "f", true, "def f (x : BitVec 64) : BitVec 64 :=\n  (x - 1#64)"},
+	{"panic in a function returning uint", `func f(x int) uint { if x <= 1 { panic("invalid value") }; return uint(x) }`, "f", true,
+		"def f (x : BitVec 64) : Option (BitVec 64) :=\n  Go.Flow.result (\n  if (BitVec.sle x 1#64) then\n    Go.Flow.panic"},
+	{"panic with a computed argument", `func f(x int) uint { if x <= 1 { panic(x + 1) }; return uint(x) }`, "f", false, "panic with an argument that is not a constant or a variable"},
+	{"constant shifted by a variable, typed by the result", `import "math/bits"
+func f(n int) uint { return 1 << (n & (bits.UintSize - 1)) }`, "f", true, "(1#64 <<< (n &&& 63#64).toNat)"},
+	{"constant shifted by a variable, typed byte", `func f(n uint) byte { return 1 << n }`, "f", false, "from the context: only the 64-bit integer types are supported there"},
+	{"typed constant shifted by a variable", `func f(n uint) byte { return byte(1) << n }`, "f", true, "(1#8 <<< n.toNat)"},
+	{"constant shifted by a variable, typed int32", `func f(n uint) int32 { var r int32 = 1 << n; return r }`, "f", false, "from the context: only the 64-bit integer types are supported there"},
+	{"largestPowerOfTwo", `import "math/bits"
+func f(x int) uint { if x <= 1 { panic("invalid value") }; log := bits.Len(uint(x-1)) - 1; return 1 << (log & (bits.UintSize - 1)) }`, "f", true,
+		"let log : BitVec 64 := ((Go.bitsLen64 (x - 1#64)) - 1#64)\n  if !(Go.nonneg (log &&& 63#64)) then Go.Flow.panic else\n  Go.Flow.done (1#64 <<< (log &&& 63#64).toNat))"},
+	// stage 7.2: hash.Hash locals made by c.f.New() on a crypto.Hash field
+	{"hash object", `import "crypto"
+type T struct { hash crypto.Hash }
+func (t *T) m(l, r []byte) []byte { h := t.hash.New(); h.Write([]byte{1}); h.Write(l); h.Write(r); return h.Sum(nil) }`, "T.m", true,
+		"def T_m (hash_sum : List (BitVec 8) → List (BitVec 8)) (l : List (BitVec 8)) (r : List (BitVec 8)) : List (BitVec 8) :=\n  let h : List (BitVec 8) := ([] : List (BitVec 8))\n  let h : List (BitVec 8) := (h ++ ([1#8] : List (BitVec 8)))\n  let h : List (BitVec 8) := (h ++ l)\n  let h : List (BitVec 8) := (h ++ r)\n  (hash_sum h)"},
+	{"hash of nothing", `import "crypto"
+type T struct { hash crypto.Hash }
+func (t *T) e() []byte { return t.hash.New().Sum(nil) }`, "T.e", true, "def T_e (hash_sum : List (BitVec 8) → List (BitVec 8)) : List (BitVec 8) :=\n  (hash_sum ([] : List (BitVec 8)))"},
+	{"hash parameter passed on by the caller", `import "crypto"
+type T struct { hash crypto.Hash }
+func (t *T) e() []byte { return t.hash.New().Sum(nil) }
+func (t *T) g() int { return len(t.e()) }`, "T.e,T.g", true, "def T_g (hash_sum : List (BitVec 8) → List (BitVec 8)) : BitVec 64 :=\n  let st_1 : List (BitVec 8) := (T_e hash_sum)\n  (BitVec.ofNat 64 st_1.length)"},
+	{"hash written in a loop", `import "crypto"
+type T struct { hash crypto.Hash }
+func (t *T) m(xs []byte) []byte { h := t.hash.New(); for _, x := range xs { h.Write([]byte{x}) }; return h.Sum(nil) }`, "T.m", true,
+		"List.foldl (fun (h : List (BitVec 8)) (x : BitVec 8) =>\n      (h ++ ([x] : List (BitVec 8)))) h xs"},
+	{"hash written with a window", `import "crypto"
+type T struct { hash crypto.Hash }
+func (t *T) m(xs []byte, n int) []byte { h := t.hash.New(); h.Write(xs[n:]); return h.Sum(nil) }`, "T.m", true,
+		"if !(Go.sliceFromS n xs.length) then Go.Flow.panic else\n  let h : List (BitVec 8) := (h ++ (xs.drop n.toNat))"},
+	{"two hash fields", `import "crypto"
+type T struct { a, b crypto.Hash }
+func (t *T) m(x []byte) []byte { h := t.a.New(); h.Write(x); g := t.b.New(); g.Write(h.Sum(nil)); return g.Sum(nil) }`, "T.m", true,
+		"def T_m (a_sum : List (BitVec 8) → List (BitVec 8)) (b_sum : List (BitVec 8) → List (BitVec 8)) (x : List (BitVec 8)) : List (BitVec 8) :="},
+	{"two hash fields, which is which", `import "crypto"
+type T struct { a, b crypto.Hash }
+func (t *T) m(x []byte) []byte { h := t.a.New(); h.Write(x); g := t.b.New(); g.Write(h.Sum(nil)); return g.Sum(nil) }`, "T.m", true,
+		"let g : List (BitVec 8) := (g ++ (a_sum h))\n  (b_sum g)"},
+	{"hash object from either of two fields", `import "crypto"
+type T struct { a, b crypto.Hash }
+func (t *T) m(x []byte) []byte { h := t.a.New(); if len(x) > 3 { h = t.b.New() }; h.Write(x); return h.Sum(nil) }`, "T.m", false, "is defined or assigned in another way"},
+	{"hash Reset", `import "crypto"
+type T struct { hash crypto.Hash }
+func (t *T) m(x []byte) []byte { h := t.hash.New(); h.Write(x); h.Reset(); return h.Sum(nil) }`, "T.m", false, "hash.Hash.Reset is not supported"},
+	{"hash Size", `import "crypto"
+type T struct { hash crypto.Hash }
+func (t *T) m(x []byte) int { h := t.hash.New(); return h.Size() }`, "T.m", false, "hash.Hash.Size is not supported"},
+	{"hash Sum with an argument", `import "crypto"
+type T struct { hash crypto.Hash }
+func (t *T) m(x []byte) []byte { h := t.hash.New(); h.Write(x); return h.Sum(x) }`, "T.m", false, "only supported with the literal argument nil"},
+	{"hash Write, results used", `import "crypto"
+type T struct { hash crypto.Hash }
+func (t *T) m(x []byte) int { h := t.hash.New(); n, _ := h.Write(x); return n }`, "T.m", false, "only supported as a statement of its own"},
+	{"hash Write, error used", `import "crypto"
+type T struct { hash crypto.Hash }
+func (t *T) m(x []byte) bool { h := t.hash.New(); if _, err := h.Write(x); err != nil { return false }; return true }`, "T.m", false, "only supported as a statement of its own"},
+	{"hash object copied", `import "crypto"
+type T struct { hash crypto.Hash }
+func (t *T) m(x []byte) []byte { h := t.hash.New(); g := h; g.Write(x); return h.Sum(nil) }`, "T.m", false, "used in another way"},
+	{"hash object passed on", `import ("crypto"; "fmt")
+type T struct { hash crypto.Hash }
+func (t *T) m(x []byte) []byte { h := t.hash.New(); fmt.Fprintf(h, "x"); return h.Sum(nil) }`, "T.m", false, "unsupported statement"},
+	{"hash object as an operand", `import "crypto"
+type T struct { hash crypto.Hash }
+func (t *T) m(x []byte) bool { h := t.hash.New(); return h == nil }`, "T.m", false, "used in another way"},
+	{"hash parameter", `import "hash"
+func g(h hash.Hash, x []byte) []byte { h.Write(x); return h.Sum(nil) }`, "g", false, "a parameter of type hash.Hash is not supported"},
+	{"hash variable without a value", `import ("crypto"; "hash")
+type T struct { hash crypto.Hash }
+func (t *T) m(x []byte) []byte { var h hash.Hash; h.Write(x); return h.Sum(nil) }`, "T.m", false, "without an initial value"},
+	{"hash object returned", `import ("crypto"; "hash")
+type T struct { hash crypto.Hash }
+func (t *T) m() hash.Hash { return t.hash.New() }`, "T.m", false, "a result of type hash.Hash is not supported"},
+	{"hash field used in another way", `import "crypto"
+type T struct { hash crypto.Hash }
+func (t *T) m() int { return t.hash.Size() }`, "T.m", false, "it may only be used as c.hash.New()"},
+	{"hash field as a number", `import "crypto"
+type T struct { hash crypto.Hash }
+func (t *T) m() uint { return uint(t.hash) }`, "T.m", false, "it may only be used as c.hash.New()"},
+	{"hash field assigned", `import "crypto"
+type T struct { hash crypto.Hash }
+func (t *T) m(x []byte) []byte { t.hash = crypto.SHA256; h := t.hash.New(); h.Write(x); return h.Sum(nil) }`, "T.m", false, "it may only be used as c.hash.New()"},
+	{"hash made from a parameter", `import "crypto"
+func f(c crypto.Hash, x []byte) []byte { h := c.New(); h.Write(x); return h.Sum(nil) }`, "f", false, "unsupported call"},
+	// stage 7.3 / 7.4: encoding.BinaryMarshaler values, read-only slices of them, their errors
+	{"MarshalBinary", `import "encoding"
+func f(d encoding.BinaryMarshaler) ([]byte, error) { b, err := d.MarshalBinary(); if err != nil { return nil, err }; return append([]byte{1}, b...), nil }`, "f", true,
+		"def f (d : (List (BitVec 8) × Option String)) : List (BitVec 8) × Option String :=\n  let st_1 : List (BitVec 8) × Option String := d\n  let b : List (BitVec 8) := st_1.1\n  let err : Option String := st_1.2\n  if (err).isSome then\n    (([] : List (BitVec 8)), err)"},
+	{"marshaler slice, indexed and measured", `import "encoding"
+func f(ds []encoding.BinaryMarshaler, i int) int { b, _ := ds[i].MarshalBinary(); return len(b) + len(ds) }`, "f", true,
+		"def f (ds : List (List (BitVec 8) × Option String)) (i : BitVec 64) : Option (BitVec 64) :=\n  Go.Flow.result (\n  if !(Go.inRangeS i ds.length) then Go.Flow.panic else\n  let st_1 : List (BitVec 8) × Option String := (ds.getD i.toNat (([] : List (BitVec 8)), (none : Option String)))"},
+	{"marshaler slice, element as an argument", `import "encoding"
+func g(d encoding.BinaryMarshaler) int { b, _ := d.MarshalBinary(); return len(b) }
+func f(ds []encoding.BinaryMarshaler) int { return g(ds[0]) }`, "g,f", true,
+		"if !(decide (0 < ds.length)) then Go.Flow.panic else\n  Go.Flow.done (g (ds.getD 0 (([] : List (BitVec 8)), (none : Option String))))"},
+	{"marshaler slice, windows as arguments", `import "encoding"
+func g(ds []encoding.BinaryMarshaler) int { return len(ds) }
+func f(ds []encoding.BinaryMarshaler, k uint) int { return g(ds[:k]) - g(ds[k:]) }`, "g,f", true,
+		"if !(Go.sliceFromU k ds.length) then Go.Flow.panic else\n  Go.Flow.done ((g (ds.take k.toNat)) - (g (ds.drop k.toNat)))"},
+	{"marshaler slice, window with an int bound", `import "encoding"
+func g(ds []encoding.BinaryMarshaler) int { return len(ds) }
+func f(ds []encoding.BinaryMarshaler, j int) int { return g(ds[:j]) }`, "g,f", true, "if !(Go.sliceOK 0#64 j ds.length) then Go.Flow.panic else\n  Go.Flow.done (g (ds.take j.toNat))"},
+	{"marshaler slice, window with a byte bound", `import "encoding"
+func g(ds []encoding.BinaryMarshaler) int { return len(ds) }
+func f(ds []encoding.BinaryMarshaler, j byte) int { return g(ds[:j]) }`, "g,f", false, "slice bound of type"},
+	{"error of MarshalBinary in a function with positioned errors", `import ("encoding"; "errors")
+var ErrX = errors.New("x")
+type E struct { err error; Off int }
+func (e *E) Error() string { return "e" }
+func f(d encoding.BinaryMarshaler, a int) (int, error) { b, err := d.MarshalBinary(); if err != nil { return 0, err }; if a < 0 { return 0, &E{ErrX, a} }; return len(b), nil }`, "f", true,
+		"let err : Option (String × Option (BitVec 64)) := (Go.errOfPlain st_1.2)"},
+	{"comparison of two errors", `import "encoding"
+func f(d, e encoding.BinaryMarshaler) bool { _, e1 := d.MarshalBinary(); _, e2 := e.MarshalBinary(); return e1 == e2 }`, "f", false, "comparison of errors is not supported"},
+	{"marshalled bytes returned", `import "encoding"
+func f(d encoding.BinaryMarshaler) []byte { b, _ := d.MarshalBinary(); return b }`, "f", false, "would alias memory of the element"},
+	{"marshalled bytes appended to", `import "encoding"
+func f(d encoding.BinaryMarshaler) int { b, _ := d.MarshalBinary(); b = append(b, 1); return len(b) }`, "f", false, "they may share memory with the element"},
+	{"marshalled bytes written into", `import "encoding"
+func f(d encoding.BinaryMarshaler) int { b, _ := d.MarshalBinary(); b[0] = 1; return len(b) }`, "f", false, "not a local slice created once by make"},
+	{"range over marshalers", `import "encoding"
+func f(ds []encoding.BinaryMarshaler) int { n := 0; for _, d := range ds { b, _ := d.MarshalBinary(); n += len(b) }; return n }`, "f", false, "range over []encoding.BinaryMarshaler is not supported"},
+	{"marshaler slice as a value", `import "encoding"
+func f(ds []encoding.BinaryMarshaler) int { x := ds[1:]; return len(x) }`, "f", false, "unsupported expression"},
+	{"marshaler slice written", `import "encoding"
+func f(ds []encoding.BinaryMarshaler) int { ds[0] = ds[1]; return len(ds) }`, "f", false, "such slices are read-only"},
+	{"marshaler slice appended to", `import "encoding"
+func f(ds []encoding.BinaryMarshaler) int { ds = append(ds, ds[0]); return len(ds) }`, "f", false, "append to"},
+	{"marshaler as a result", `import "encoding"
+func f(ds []encoding.BinaryMarshaler) encoding.BinaryMarshaler { return ds[0] }`, "f", false, "a result of type encoding.BinaryMarshaler is not supported"},
+	{"marshaler compared", `import "encoding"
+func f(d encoding.BinaryMarshaler) bool { return d == nil }`, "f", false, "operands of different types"},
+	{"marshalers compared", `import "encoding"
+func f(d, e encoding.BinaryMarshaler) bool { return d == e }`, "f", false, "unsupported operator"},
+	{"MarshalBinary of a concrete type", `type X struct{}
+func (X) MarshalBinary() ([]byte, error) { return nil, nil }
+func f(x X) int { b, _ := x.MarshalBinary(); return len(b) }`, "f", false, "outside the translated subset"},
+	{"another interface", `import "encoding"
+func f(d encoding.TextMarshaler) int { b, _ := d.MarshalText(); return len(b) }`, "f", false, "outside the translated subset"},
+	// stage 7.5: return f(…)
+	{"return of a call with two results", `func g(xs []byte) (byte, bool) { return xs[0], true }
+func f(xs []byte) (byte, bool) { return g(xs[1:]) }`, "g,f", true,
+		"if !(decide (1 ≤ xs.length)) then Go.Flow.panic else\n  Go.Flow.bind (Go.call (g (xs.drop 1))) (fun (st_1 : BitVec 8 × Bool) =>\n  Go.Flow.done (st_1.1, st_1.2))"},
+	{"return of a call that cannot panic", `func g(a uint) (uint, uint) { return a + 1, a + 2 }
+func f(a uint) (uint, uint) { if a > 5 { return g(a - 5) }; return g(a) }`, "g,f", true,
+		"if (BitVec.ult 5#64 a) then\n    let st_1 : BitVec 64 × BitVec 64 := (g (a - 5#64))\n    (st_1.1, st_1.2)\n  else\n    let st_2 : BitVec 64 × BitVec 64 := (g a)\n    (st_2.1, st_2.2)"},
+	{"return of a method call", `import "encoding"
+type T struct { n int }
+func (t *T) leaf(d encoding.BinaryMarshaler) ([]byte, error) { b, err := d.MarshalBinary(); if err != nil { return nil, err }; return append([]byte{byte(t.n)}, b...), nil }
+func (t *T) m(ds []encoding.BinaryMarshaler) ([]byte, error) { return t.leaf(ds[0]) }`, "T.leaf,T.m", true,
+		"let st_1 : List (BitVec 8) × Option String := (T_leaf t_n (ds.getD 0 (([] : List (BitVec 8)), (none : Option String))))\n  Go.Flow.done (st_1.1, st_1.2))"},
+	{"return of a call, error converted", `import "errors"
+var ErrX = errors.New("x")
+type E struct { err error; Off int }
+func (e *E) Error() string { return "e" }
+func g(a int) (int, error) { if a == 0 { return 0, ErrX }; return a, nil }
+func f(a int) (int, error) { if a < 0 { return 0, &E{ErrX, a} }; return g(a) }`, "g,f", true, "(st_1.1, (Go.errOfPlain st_1.2))"},
+	{"return of a call that writes into a parameter", `func g(dst []int8) (int, int) { dst[0] = 1; return 1, 2 }
+func f(dst []int8) (int, int) { return g(dst) }`, "g,f", false, "only supported for a function that does not write into a parameter or a field"},
+	{"return of a call that is not translated", `func g(a int) (int, int) { return a, a }
+func f(a int) (int, int) { return g(a) }`, "f", false, "return arity"},
+	// stage 7.6: recursion
+	{"recursion", `func f(n uint) uint { if n == 0 { return 0 }; return f(n-1) + 2 }`, "f", true,
+		"def f (fuel : Nat) (n : BitVec 64) : Option (BitVec 64) :=\n  match fuel with\n  | 0 => none\n  | fuel + 1 =>\n    Go.Flow.result (\n    if (n == 0#64) then\n      Go.Flow.done 0#64\n    else\n    Go.Flow.bind (Go.call (f fuel (n - 1#64))) (fun (st_1 : BitVec 64) =>\n    Go.Flow.done (st_1 + 2#64)))"},
+	{"recursion, doc comment", `func f(n uint) uint { if n == 0 { return 0 }; return f(n-1) + 2 }`, "f", true, "none = run-time panic OR fuel exhausted"},
+	{"recursive method with a field and a hash parameter", `import "crypto"
+type T struct { hash crypto.Hash; n int }
+func (t *T) m(xs []byte, d uint) []byte { if d > 0 { r := t.m(xs, d-1); return append([]byte{byte(t.n)}, r...) }; h := t.hash.New(); h.Write(xs); return h.Sum(nil) }`, "T.m", true,
+		"def T_m (hash_sum : List (BitVec 8) → List (BitVec 8)) (fuel : Nat) (t_n : BitVec 64) (xs : List (BitVec 8)) (d : BitVec 64) : Option (List (BitVec 8)) :="},
+	{"recursive method, the call of itself", `import "crypto"
+type T struct { hash crypto.Hash; n int }
+func (t *T) m(xs []byte, d uint) []byte { if d > 0 { r := t.m(xs, d-1); return append([]byte{byte(t.n)}, r...) }; h := t.hash.New(); h.Write(xs); return h.Sum(nil) }`, "T.m", true,
+		"Go.Flow.bind (Go.call (T_m hash_sum fuel t_n xs (d - 1#64))) (fun (st_1 : List (BitVec 8)) =>"},
+	{"recursion over a slice of marshalers", `import "encoding"
+func f(ds []encoding.BinaryMarshaler) ([]byte, error) { if len(ds) == 0 { return nil, nil }; if len(ds) == 1 { b, err := ds[0].MarshalBinary(); if err != nil { return nil, err }; return append([]byte{0}, b...), nil }; l, err := f(ds[:1]); if err != nil { return nil, err }; r, err := f(ds[1:]); if err != nil { return nil, err }; return append(l, r...), nil }`, "f", true,
+		"Go.Flow.bind (Go.call (f fuel (ds.take 1))) (fun (st_2 : List (BitVec 8) × Option String) =>"},
+	{"recursion, capacity caveat", `import "encoding"
+func f(ds []encoding.BinaryMarshaler) ([]byte, error) { if len(ds) == 0 { return nil, nil }; if len(ds) == 1 { b, err := ds[0].MarshalBinary(); if err != nil { return nil, err }; return append([]byte{0}, b...), nil }; l, err := f(ds[:1]); if err != nil { return nil, err }; r, err := f(ds[1:]); if err != nil { return nil, err }; return append(l, r...), nil }`, "f", true,
+		"NOTE: it passes windows x[:hi] of `ds` to itself and slices that parameter with an upper bound"},
+	{"recursion, no capacity caveat for suffix windows", `func f(xs []byte) int { if len(xs) == 0 { return 0 }; return f(xs[1:]) + 1 }`, "f", true,
+		"none = run-time panic OR fuel exhausted (the translation says nothing about termination) -/\ndef f (fuel : Nat) (xs : List (BitVec 8)) : Option (BitVec 64) :="},
+	{"return of a call of itself", `func f(xs []byte, n int) (int, bool) { if len(xs) == 0 { return n, true }; return f(xs[1:], n+1) }`, "f", true,
+		"Go.Flow.bind (Go.call (f fuel (xs.drop 1) (n + 1#64))) (fun (st_1 : BitVec 64 × Bool) =>\n    Go.Flow.done (st_1.1, st_1.2))"},
+	{"mutual recursion", `func g(n uint) uint { if n == 0 { return 0 }; return f(n-1) }
+func f(n uint) uint { if n == 0 { return 1 }; return g(n-1) }`, "g,f", false, "mutual recursion (g → f → g) is not supported"},
+	{"mutual recursion of methods", `type T struct { n int }
+func (t *T) a(n uint) uint { if n == 0 { return 0 }; return t.b(n-1) }
+func (t *T) b(n uint) uint { if n == 0 { return 1 }; return t.a(n-1) }`, "T.a,T.b", false, "mutual recursion (a → b → a) is not supported"},
+	{"recursive function called from another function", `func f(n uint) uint { if n == 0 { return 0 }; return f(n-1) + 2 }
+func h(n uint) uint { return f(n) + 1 }`, "f,h", false, "call of the recursive function f from another function is not supported"},
+	{"recursive function called from another function as a statement", `func f(n uint) uint { if n == 0 { return 0 }; return f(n-1) + 2 }
+func h(n uint) uint { x := f(n); return x + 1 }`, "f,h", false, "call of the recursive function f from another function is not supported"},
+	{"recursive function writing into a parameter", `func f(dst []int8, n int) int { if n == 0 { return 0 }; dst[0] = 1; return f(dst[1:], n-1) }`, "f", false,
+		"a recursive function that writes into a parameter or assigns a field of its receiver is not supported"},
+	{"recursive method assigning a field", `type T struct { n int }
+func (t *T) m(d uint) uint { if d == 0 { return 0 }; t.n++; return t.m(d-1) }`, "T.m", false,
+		"a recursive function that writes into a parameter or assigns a field of its receiver is not supported"},
+	{"recursion, variable called fuel", `func f(fuel uint) uint { if fuel == 0 { return 0 }; return f(fuel-1) + 2 }`, "f", false, "clashes with the recursion parameter"},
+	{"recursion under ||", `func f(n uint) bool { return n == 0 || f(n-1) }`, "f", false, "evaluated conditionally"},
 }
 
 func TestLoopTranslator(t *testing.T) {
